@@ -105,6 +105,35 @@ theorem addDemand_origin (d : Nat × List Nat) (items : List Item) :
         · left; exact ⟨it, List.mem_cons_of_mem _ h1, h2, h3⟩
         · right; exact h1
 
+/-- where the lookaheads afterwards come from: the old item, or the demand if the item is `(d.1, 0)` -/
+theorem addDemand_origin2 (d : Nat × List Nat) (items : List Item) :
+    ∀ it' ∈ (addDemand d items).1,
+      (∃ it ∈ items, core it = core it' ∧ ∀ a ∈ it'.la, a ∈ it.la ∨ (a ∈ d.2 ∧ core it' = (d.1, 0))) ∨
+        it' = ⟨d.1, 0, d.2⟩ := by
+  induction items with
+  | nil => intro it' h; right; simpa [addDemand] using h
+  | cons x xs ih =>
+    intro it' hit
+    unfold addDemand at hit
+    by_cases hx : (x.prod == d.1 && x.dot == 0) = true
+    · rw [if_pos hx] at hit
+      rcases List.mem_cons.mp hit with h | h
+      · left
+        refine ⟨x, List.mem_cons_self, by rw [h]; rfl, ?_⟩
+        intro a ha
+        rw [h] at ha ⊢
+        simp only [Bool.and_eq_true, beq_iff_eq] at hx
+        rcases mem_union.mp ha with h' | h'
+        · exact .inl h'
+        · exact .inr ⟨h', by simp [core, hx.1, hx.2]⟩
+      · left; exact ⟨it', List.mem_cons_of_mem _ h, rfl, fun a ha => .inl ha⟩
+    · rw [if_neg hx] at hit
+      rcases List.mem_cons.mp hit with h | h
+      · left; exact ⟨x, List.mem_cons_self, by rw [h], fun a ha => .inl (by rw [h] at ha; exact ha)⟩
+      · rcases ih it' h with ⟨it, h1, h2, h3⟩ | h1
+        · left; exact ⟨it, List.mem_cons_of_mem _ h1, h2, h3⟩
+        · right; exact h1
+
 /-- every item afterwards is an old item with at least its lookaheads, or the new item -/
 theorem addDemand_back (d : Nat × List Nat) (items : List Item) :
     ∀ it' ∈ (addDemand d items).1,
